@@ -81,3 +81,7 @@ func VerifResetRegistry(rm *RegistrationManager) {
 	r.decoys = make(map[string]map[string]*DecoyRegistration)
 	r.decoysTimeouts = make(map[string]*DecoyTimeout)
 }
+
+// VerifIngest runs the station's real ingest path on a registration object (what an ingest worker
+// does after parsing a message).
+func VerifIngest(rm *RegistrationManager, reg *DecoyRegistration) { rm.ingestRegistration(reg) }
